@@ -1,5 +1,5 @@
 """C07 — dual hashes: canonical storage discipline of the RLE side table (structural clauses)."""
-from ..rules import tail, fields, eqord, parser, panic, rle, normal, casts
+from ..rules import tail, fields, eqord, parser, panic, rle, normal, casts, vis
 
 EXPL = ("Decides: SA-TAIL: on every construction route the RLE block is terminator-filled from the encoder's final offset to the end and "
         "the normalised block hash is zero-filled from its stored length; every write into an RLE block anywhere in the crate is "
@@ -29,6 +29,7 @@ def run(ctx):
         ctx.guard("C07", "rle-formulas", lambda: rle.encoding(ctx, prog))
         ctx.guard("C07", "runs", lambda: normal.run_limit_agreement(ctx, prog))
         ctx.guard("C07", "rle-validator", lambda: rle.validator_refusals(ctx, prog))
+        ctx.guard("C07", "traits", lambda: vis.trait_census(ctx, prog, scope='hash_dual::'))
         ctx.guard("C07", "casts", lambda: casts.census(ctx, prog, scope='hash_dual::', floor=3))
     return ctx.finish(EXPL, ["raw inputs of the compressor are valid raw block hashes (length <= capacity)"])
 
